@@ -142,6 +142,9 @@ def laws_counts(L, rng, nb, npatch, auto):
     bigger = PatchedCounts(binning, gen.gen_count_array(rng, nb, npatch + 1, auto), auto=auto)
     L.raises(f"{tag}.add-other-patches", lambda: a + bigger)
     L.raises(f"{tag}.add-other-type", lambda: a + a.counts)
+    L.check(f"{tag}.is_compatible", lambda: None if a.is_compatible(b) is True and a.is_compatible(other_bin) is False
+            and a.is_compatible(bigger) is False and a.is_compatible(a.counts) is False
+            and a.is_compatible(PatchedCounts(flipped, a.counts, auto=auto)) is False else "is_compatible() wrong")
     L.raises(f"{tag}.add-scalar", lambda: a + 1.0)
     for s in SCALARS:
         L.check(f"{tag}.mul", lambda s=s: None if eq_arr((a * s).counts, a.counts * s) and (a * s).auto == auto else f"a*{s!r} differs")
